@@ -21,9 +21,9 @@ package main
 
 import (
 	"fmt"
-	"os"
 	"go/token"
 	"go/types"
+	"os"
 
 	"golang.org/x/tools/go/ssa"
 )
@@ -341,7 +341,6 @@ func (m *Module) liftCell(fn *ssa.Function, cell *ssa.Alloc) {
 	}
 }
 
-
 // cellKillers returns the calls of fn that can change the captured variable
 // cell: only a closure that captures the variable can write it, so only a call
 // that is handed such a closure (directly, through a variable that holds it, or
@@ -547,6 +546,7 @@ func zeroOf(t types.Type) *ssa.Const {
 //     set, the literal has returned false;
 //   - the literal is handed to exactly one function, which only calls it and
 //     never calls it again after it has returned false.
+//
 // (The idiom: `walk(addr, func(...) bool { ...; err = E; ...; return err == nil })`.)
 func (m *Module) abortFlagWalkers(fn *ssa.Function, cell *ssa.Alloc) (res []*ssa.Function) {
 	if os.Getenv("FFC_DBG_AFW") != "" {
